@@ -552,6 +552,51 @@ def t_pathsyntax( ctx ):
             else:
                 res.bad( src, eb[0], "format_path keeps the element index in %r and appends it after the last component" % ( ev[0] if ev else '?' ),
                          'the index of a non-final component moves to the end: [Foo, element 1, Boo] is formatted "Foo.Boo[1]", which parses back to [Foo, Boo, element 1]' )
+    # numeric paths: the parser types a BARE number by its position ( @class/instance/attribute ), so the formatter may print a class, instance
+    # or attribute segment as a bare number only AT that position ( 0, 1, 2 numbers printed so far ); anywhere else it must fall back to the
+    # JSON form.  Decision table: segment kind x numbers printed so far ( 0..3 ): which branch of the chain fires, bare or JSON.
+    if lp_:
+        from .fold import fold as _fold, NoFold as _NoFold
+        chain = [ s_ for s_ in lp_[0].body if isinstance( s_, ast.If ) ]
+        top = chain[0] if chain else None
+        branches = []
+        c_ = top
+        while c_ is not None:
+            branches.append(( c_.test, c_.body ))
+            if len( c_.orelse ) == 1 and isinstance( c_.orelse[0], ast.If ):
+                c_ = c_.orelse[0]
+            else:
+                branches.append(( None, c_.orelse ))
+                c_ = None
+        NUM = None
+        for t_, b_ in branches:
+            for x_ in ast.walk( ast.Module( body=b_, type_ignores=[] )):
+                if isinstance( x_, ast.Call ) and isinstance( x_.func, ast.Attribute ) and x_.func.attr == 'append' and isinstance( x_.func.value, ast.Name ):
+                    NUM = x_.func.value.id
+        if NUM and branches:
+            wrong = []; cells = 0
+            for kind, pos in (( 'class', 0 ), ( 'instance', 1 ), ( 'attribute', 2 )):
+                for n_ in range( 4 ):
+                    cells += 1
+                    env = { SEG: { kind: 5 }, NUM: [ 'x' ] * n_, 'symbolic': '', 'element': None }
+                    fired = None
+                    for t_, b_ in branches:
+                        if t_ is None:
+                            fired = b_; break
+                        try:
+                            v_ = _fold( t_, env )
+                        except _NoFold as exc:
+                            raise AnalysisError( 'format_path: branch test outside the modelled subset: %s (%s)' % ( norm_text( t_ ), exc ))
+                        if v_:
+                            fired = b_; break
+                    json_form = any( is_call_to( c2, 'json.dumps' ) for b2 in fired for c2 in ast.walk( b2 ))
+                    if ( not json_form ) != ( n_ == pos ):
+                        wrong.append(( kind, n_, 'bare' if not json_form else 'JSON' ))
+            if wrong:
+                res.bad( src, top, 'format_path prints a %s segment as a %s number after %d printed number(s) (%d of %d cells differ)' % ( wrong[0][0], wrong[0][2], wrong[0][1], len( wrong ), cells ),
+                         "parse_path types a bare number by its position: [class 2, attribute 1] printed as '@0x0002/1' parses back as [class 2, instance 1] - another segment type" )
+            else:
+                res.ok( src, top, 'numeric segments are printed bare only at the position that gives them the same type on parsing ( %d cells: kind x numbers printed )' % cells )
     pp = dsrc.get( 'parse_path' ); ppe = dsrc.get( 'parse_path_elements' ); ppc = dsrc.get( 'parse_path_component' ); pi = dsrc.get( 'parse_int' )
     parser_consts = ''.join( c.value for f in ( pp, ppe, ppc, pi ) for c in ast.walk( f ) if isinstance( c, ast.Constant ) and isinstance( c.value, str ))
     need = { '@': ( pp, ppc ), '/': ( pp, ), '[': ( ppe, ppc ), ']': ( ppe, ppc ), '-': ( ppe, ), '.': ( pp, ) }
